@@ -201,7 +201,10 @@ func (f *File) CodeSections(img []byte) (blocks []Block, bad string) {
 // such a block is not stated anywhere; it is not judged beyond not crashing.
 func Wraps(bs []Block) bool {
 	for _, b := range bs {
-		if len(b.Bytes) > 0 && b.Addr+uint64(len(b.Bytes)) <= b.Addr {
+		// A block ending exactly at 2^64 does not wrap: every byte of it has
+		// an address, so a loader that accepts it must serve it faithfully
+		// (rejecting it is fine as well).
+		if e := b.Addr + uint64(len(b.Bytes)); len(b.Bytes) > 0 && e <= b.Addr && e != 0 {
 			return true
 		}
 	}
@@ -217,10 +220,11 @@ func Overlap(bs []Block) bool {
 				continue
 			}
 			ae, be := a.Addr+uint64(len(a.Bytes)), b.Addr+uint64(len(b.Bytes))
-			if ae < a.Addr || be < b.Addr { // wraps
+			if (ae != 0 && ae < a.Addr) || (be != 0 && be < b.Addr) { // wraps beyond 2^64
 				return true
 			}
-			if a.Addr < be && b.Addr < ae {
+			// an end of 0 stands for 2^64
+			if (be == 0 || a.Addr < be) && (ae == 0 || b.Addr < ae) {
 				return true
 			}
 		}
